@@ -7,6 +7,12 @@ PROPS = {
          'note': 'Trusted: the VC generator and its table of Python semantics, z3/cvc5, the induction schema of gvc/induct.py; Nhat/Eclo/dhat are the textbook definitions (def / least-fixpoint axioms), all other theory facts are proved as lemmas on every run.',
          'technique': 'contract-based deductive verification (VCs from the real Python AST, z3/cvc5) + static effect analysis for frames',
          'assumptions': ['"an accepting run exists" is identified with Nhat(w) ∩ F ≠ ∅ (standard; the bounded cross-check compares with an explicit run search)']},
+ 'C11': {'level': 'proof', 'ready': True,
+         'explanation': 'tm_do_transition, tm_accepts_word and tm_simulate_word are verified against a transcription of Sipser\'s step semantics (run(T,w,i), sticky at halting configurations): the step function is exact (read, default to the rejecting state, write, clamp at the left end, extend with blank), the verdict equals tm_verdict(T,w,k) for every budget k >= 0, and the recorded trace equals run(T,w,0..m), stops at the first halting state and has length <= k+1. Monotonicity in the budget is the lemma run-sticky, proved by induction on every run. Bounded cases cross-check the spec functions themselves against an independent simulator.',
+         'claim': 'All obligations generated from the current source of the three TM functions are discharged for every machine, word and step budget; the relation between trace and verdict and budget-monotonicity follow from the two postconditions and the proved lemma run-sticky.',
+         'note': 'Trusted: the transcription of the TM step semantics in gvc/theory.py (reviewed against Sipser; cross-checked by the bounded stand-in against gvc/ref.py), VC generator, z3/cvc5. Termination of the bounded loop is by the range iterator.',
+         'technique': 'contract-based deductive verification (VCs from the real Python AST, z3/cvc5) + static effect analysis for frames',
+         'assumptions': ['words passed to the TM functions are strings of single-character symbols; max_steps >= 0']},
 }
 for i in range(2, 21):
     PROPS.setdefault('C%02d' % i, {'level': 'other', 'explanation': 'see DESIGN.md', 'assumptions': [], 'claim': 'n/a', 'note': 'n/a', 'technique': 'n/a'})
